@@ -1373,6 +1373,14 @@ ok:
                 if ((ssl->flags & SSL_FLAGS_ECC_CIPHER) != 0)
                 { /* DHE with ECC */
 #   ifdef USE_ECC_CIPHER_SUITE
+                    if (ssl->sec.eccKeyPriv == NULL)
+                    {
+                        /* DTLS retransmission requested after the ephemeral
+                           key has been released: the flight cannot be
+                           rebuilt. */
+                        psTraceErrr("No ephemeral ECC key for ServerKeyExchange\n");
+                        return MATRIXSSL_ERROR;
+                    }
                     if (ssl->flags & SSL_FLAGS_DHE_WITH_RSA)
                     {
                         /*
